@@ -604,6 +604,14 @@ class Interp:
                 return SuperProxy(frame.owner, frame.self_obj)
             if f in (str, int, len):
                 return self.call_builtin(f, args, kwargs)
+            if f is dict:
+                d = {}
+                for a in args:
+                    if not isinstance(a, dict):
+                        raise Untranslatable("dict() of a non dict")
+                    d.update(a)
+                d.update(kwargs)
+                return d
             if f is type and len(args) == 1:
                 if isinstance(args[0], Obj) and args[0].cls is not None:
                     return args[0].cls
@@ -847,6 +855,8 @@ class Interp:
             i = self.eval(t.slice, frame)
             if isinstance(o, list) and isinstance(i, int):
                 o[i] = v
+            elif isinstance(o, dict) and isinstance(i, (str, int, bool)):
+                o[i] = v
             else:
                 raise Untranslatable("subscript assignment")
         elif isinstance(t, ast.Tuple):
@@ -877,6 +887,8 @@ class Interp:
             return SInt(op, a, b)
         raise Untranslatable("arithmetic on %r, %r" % (a, b))
     def binop(self, op, a, b):
+        if isinstance(op, ast.Add) and isinstance(a, ListObj) and isinstance(b, ListObj):
+            return ListObj(list(a.segs) + list(b.segs))
         if isinstance(op, ast.Add):
             if isinstance(a, (str, SStr)) or isinstance(b, (str, SStr)):
                 if isinstance(a, SOpt) or isinstance(b, SOpt):
@@ -939,6 +951,8 @@ class Interp:
                 return o[i]
             if isinstance(o, dict):
                 if isinstance(i, (bool, int, str)):
+                    if i not in o:
+                        raise PyRaise(KeyError)
                     return self.wrap(o[i])
                 if isinstance(i, SBool) and set(o.keys()) == {True, False} and \
                         all(isinstance(x, str) for x in o.values()):
@@ -1629,4 +1643,100 @@ def translate_clone(T):
                         holder["fresh"]))
         except Untranslatable as e:
             out.append((lname, cname.strip("@"), None, "Tree", None, str(e), 0, False))
+    return out
+
+
+# ---------------------------------------------------------------------------------------------
+# `child_context` of the visitor classes: what a child is visited with
+# ---------------------------------------------------------------------------------------------
+
+CONTEXT_CLASSES = ["TreeVisitor", "TreeTransformer", "PathTrackingVisitor", "PathTrackingTransformer"]
+
+
+def translate_child_context(V):
+    """`X.child_context(node, child, context, new_node=..., position=...)` for the four visitor classes, below the
+    root (`context` carries parents / new_parents / path and one foreign key) and at the root (`context` as `visit`
+    makes it). Result: the three tracked entries of the child's context and whether the foreign key was kept."""
+    out = []
+    for cname in CONTEXT_CLASSES:
+        for where in ("inner", "root"):
+            cls = getattr(V, cname)
+            tracking = "PathTracking" in cname
+            transformer = "Transformer" in cname
+
+            def run(oracle, cls=cls, where=where, tracking=tracking, transformer=transformer):
+                it = Interp(oracle)
+                me = Obj(cls, lean="@self")
+                me.attrs["track_parents"] = SBool("trackParents")
+                me.attrs["track_new_parents"] = SBool("trackNew")
+                node = Obj(None, lean="node", lay="node.lay")
+                child = Obj(None, lean="child", lay="child.lay")
+                new_node = Obj(None, lean="newNode", lay="newNode.lay")
+                ctx = {"other": SStr.var("other")}
+                if where == "inner":
+                    ctx["parents"] = ListObj([("sym", "ps")])
+                    ctx["new_parents"] = ListObj([("sym", "nps")])
+                    if tracking:
+                        ctx["path"] = ListObj([("sym", "path")])
+                elif tracking:
+                    ctx["path"] = ListObj([])
+                kwargs = {}
+                if transformer:
+                    kwargs["new_node"] = new_node
+                if tracking:
+                    kwargs["position"] = SInt("var", "i")
+                f = it.getattr_(me, "child_context", None)
+                try:
+                    res = it.call(f, [node, child, ctx], kwargs, None)
+                except PyRaise as e:
+                    return emit_raise(e)
+                if not isinstance(res, dict):
+                    raise Untranslatable("child_context does not return a dict")
+                if res is ctx:
+                    raise Untranslatable("child_context returns the parent's context itself")
+
+                def trees_l(v):
+                    if v is None:
+                        return "none"
+                    if not isinstance(v, ListObj):
+                        raise Untranslatable("a tracked entry is not a tuple")
+                    return "(some %s)" % emit_list(it, v)
+
+                def path_l(v):
+                    if v is None:
+                        return "none"
+                    if not isinstance(v, ListObj):
+                        raise Untranslatable("the path is not a tuple")
+                    chunks, cur = [], []
+                    for k, x in v.segs:
+                        if k == "elem":
+                            cur.append(int_lean(x))
+                        else:
+                            if cur:
+                                chunks.append("[" + ", ".join(cur) + "]")
+                                cur = []
+                            chunks.append(x)
+                    if cur or not chunks:
+                        chunks.append("[" + ", ".join(cur) + "]")
+                    return "(some %s)" % (chunks[0] if len(chunks) == 1 else "(" + " ++ ".join(chunks) + ")")
+                extra = sorted(set(res) - {"parents", "new_parents", "path", "other"})
+                if extra:
+                    raise Untranslatable("unexpected context keys %s" % extra)
+                kept = isinstance(res.get("other"), SStr) and res["other"].lean() == "other"
+                return "Except.ok { parents := %s, newParents := %s, path := %s, otherKept := %s }" % (
+                    trees_l(res.get("parents")), trees_l(res.get("new_parents")), path_l(res.get("path")),
+                    "true" if kept else "false")
+            params = ["(trackParents trackNew : Bool)", "(node child newNode : Tree)", "(other : Str)"]
+            if where == "inner":
+                params.append("(ps nps : List Tree)")
+                if tracking:
+                    params.append("(path : List Int)")
+            if tracking:
+                params.append("(i : Int)")
+            name = "child_context_%s_%s" % (cname, where)
+            try:
+                paths = explore(run)
+                out.append((name, params, build_tree(paths, 0, 1), None, len(paths)))
+            except Untranslatable as e:
+                out.append((name, params, None, str(e), 0))
     return out
